@@ -26,7 +26,7 @@ Check C14_unchecked_passthrough :
   (accepts o sig = false ->
      r_out r = Err EOs /\ same_core st (r_state r) /\
      fallback (r_state r) = (if os_query o sig then Some sig else fallback st) /\
-     fallback_inert (r_state r) /\ r_released r = [] /\ r_kept r = [] /\ r_leaked r = []).
+     fallback_inert (r_state r) /\ r_released r = all_params f /\ r_kept r = [] /\ r_leaked r = []).
 Check C14_unchecked_kill_stop :
   forall (o : os) (k : fdkind) (f : fn_id) (sig : Z) (st : state),
   In f unchecked_eps -> wf o st -> sig = SIGKILL \/ sig = SIGSTOP ->
